@@ -137,6 +137,7 @@ def main():
         out.append("#define %s(c_) %s" % (n, cset(k)))
     out.append("#define P_DISPATCH_FORMULA \\\n\t" + full)
     out.append("#define P_DISPATCH_EXTRA_REQ __CPROVER_requires(%s)" % extra.get(func, "1"))
+    out.append("#define P_DISPATCH_M M_%s\n#define P_DISPATCH_MI MI_%s\n#define P_DISPATCH_MP MP_%s" % (func, func, func))
     out.append("#define P_DECL_%s P_DISPATCH_DECL" % func)
     out.append("#endif")
     os.makedirs(outdir, exist_ok=True)
